@@ -33,7 +33,7 @@ def digests_for(pid, seed, tier="quick"):
     out = []
     for case in mod.cases(seed, tier):
         case = json.loads(json.dumps(case, sort_keys=True))
-        res = run_case(case)
+        res = getattr(mod, "run_case", run_case)(case)
         out.append(res.digest())
     return out
 
